@@ -140,9 +140,15 @@ func Gen(f Focus, thorough bool) *rapid.Generator[Script] {
 		if !ready {
 			k := rapid.IntRange(1, 3).Draw(t, "nc")
 			for i := 0; i < k; i++ {
+				hold := pick(t, "ch", int64(0), T/2, T, T+T/d+1, 3*T)
+				if s.NoCopy && rapid.IntRange(0, 7).Draw(t, "longhold") == 0 {
+					// a consumer that sits on a no-copy slice for seconds or an hour: the discipline is
+					// blocked waiting for the release, so the fake clock simply jumps
+					hold = pick(t, "chlong", int64(5000000001), 61000000000, 3600000000000)
+				}
 				s.Cons = append(s.Cons, CStep{
 					Delay:    pick(t, "cd", int64(0), 0, T/3, T, 2*T+1),
-					Hold:     pick(t, "ch", int64(0), T/2, T, T+T/d+1, 3*T),
+					Hold:     hold,
 					Scribble: rapid.Bool().Draw(t, "scr"),
 					Append:   pick(t, "app", 0, 0, 1, 2),
 				})
